@@ -118,8 +118,7 @@ def facts_of(c, reasons, expected):
         "keys_published": len(c["j"]),
         "key_algs": ",".join(e["alg"] for e in c["j"]),
         "certs": ",".join(sorted({e["cert"] for e in c["j"]})),
-        "rule_override": ",".join(k for k in ("iss", "aud", "scp", "algs") if c["rule"][k])
-                         + (",leeway" if c["rule"]["leeway"] else ""),
+        "rule_override": ",".join(k for k in ("iss", "aud", "scp", "algs", "leeway") if c["rule"][k]),
         "has_exp": bool(t["exp"]), "has_nbf": bool(t["nbf"]),
     }
 
